@@ -43,6 +43,9 @@ func runC08(p *Program, e *Engine, r *Result, tier string) {
 	if df == nil || tf == nil {
 		return
 	}
+	// (5) what the handler returns is the translator's event, unmodified: the name is not touched after translation
+	// (shared with C01.3)
+	c01Drops(a, df, "C08.5")
 	ro := a.Ro
 	// (1) name operand and its use by the translator
 	_, hv, hctx := handlerVisits(a, df)
